@@ -125,3 +125,12 @@ T("np.datetime_as_string", "refuse", lambda a: np.datetime_as_string(a), {"a": I
 T("np.busday_count", "refuse", lambda a: np.busday_count(a, a), {"a": I("X", (2,), "nnint")}, cls="refuse")
 T("np.busday_offset", "refuse", lambda a: np.busday_offset(a, 1), {"a": I("X", (2,), "nnint")}, cls="refuse")
 T("np.is_busday", "refuse", lambda a: np.is_busday(a), {"a": I("X", (2,), "nnint")}, cls="refuse")
+
+# ---- out= forms with operands that do not commute but fit either way round --------------------------------------------------
+T("np.dot", "out,square|(3,3)(3,3)", lambda a, b, out: np.dot(a, b, out=out), {"a": I("X", (3, 3)), "b": I("Y", (3, 3)), "out": I("X", (3, 3), "zeros")}, cls="other", inplace=("out",))
+T("np.dot", "bare-out,square|(3,3)(3,3)", lambda a, b, out: np.dot(a, b, out=out), {"a": I("X", (3, 3)), "b": I("Y", (3, 3)), "out": I(None, (3, 3), "zeros")}, cls="other", inplace=("out",), noncov="a bare buffer holds the numbers in the inputs' current units")
+T("np.outer", "out|(3,)(3,)", lambda a, b, out: np.outer(a, b, out=out), {"a": I("X", (3,)), "b": I("Y", (3,)), "out": I("X", (3, 3), "zeros")}, cls="other", inplace=("out",))
+T("np.matmul", "out,square|(3,3)(3,3)", lambda a, b, out: np.matmul(a, b, out=out), {"a": I("X", (3, 3)), "b": I("Y", (3, 3)), "out": I("X", (3, 3), "zeros")}, cls="other", inplace=("out",))
+T("ndarray.dot", "out,square|(3,3)(3,3)", lambda a, b, out: a.dot(b, out=out), {"a": I("X", (3, 3)), "b": I("Y", (3, 3)), "out": I("X", (3, 3), "zeros")}, cls="other", inplace=("out",))
+T("np.kron", "XY|(2,2)(2,2)", lambda a, b: np.kron(a, b), {"a": I("X", (2, 2)), "b": I("Y", (2, 2))}, cls="other")
+T("np.cross", "XY|(3,)(3,)", lambda a, b: np.cross(a, b), {"a": I("X", (3,)), "b": I("Y", (3,))}, cls="other")
